@@ -164,6 +164,31 @@ def matrix() -> int:
     return 0
 
 
+def matrix_md() -> int:
+    """Markdown table for DESIGN.md §9 (generated; do not edit by hand)."""
+    print("| change | what it does (from its README) | caught by | at first? |")
+    print("|---|---|---|---|")
+    for d in sorted((VERIF / "seeded").glob("*/meta.json")):
+        m = json.loads(d.read_text())
+        readme = d.parent / "README.md"
+        title = readme.read_text().splitlines()[0].lstrip("# ").strip() if readme.exists() else ""
+        title = re.sub(r"^C\d\d_\w+\s*[-–—:]+\s*", "", title).replace("|", "\\|")
+        got = []
+        for k, v in sorted(m.get("checks", {}).items()):
+            prop = k.split(":")[0]
+            if v.get("caught"):
+                what = ((v.get("detail") or {}).get("what") or "")
+                if isinstance(what, list):
+                    what = "; ".join(what)
+                tail = " *(correspondence only: no-failing-input-found)*" if "no-failing-input-found" in (v.get("line") or "") else ""
+                got.append(f"{prop}: {what[:110]}{tail}")
+            else:
+                got.append(f"{prop}: **not caught** (exit {v.get('exit')})")
+        first = "yes" if not m.get("missed_at_first") else ("**missed** → " + (m.get("closed_by") or "see text"))
+        print(f"| {d.parent.name} | {title[:150]} | {'<br>'.join(got) or 'not run'} | {first} |".replace("\n", " "))
+    return 0
+
+
 if __name__ == "__main__":
     a = sys.argv[1:]
     if a and a[0] == "confirm":
@@ -179,6 +204,6 @@ if __name__ == "__main__":
                 tier = a[i + 1]
         sys.exit(run(Path(a[1]).resolve(), props, tier, wt))
     if a and a[0] == "matrix":
-        sys.exit(matrix())
+        sys.exit(matrix_md() if "--md" in a else matrix())
     print(__doc__)
     sys.exit(2)
